@@ -57,6 +57,9 @@ func WithCancelCause(parent Context) (Context, CancelCauseFunc) {
 	}
 }
 
+// FailsafeHorizon: context timeouts at least this long are treated as "never" under the scheduler.
+var FailsafeHorizon = time.Second
+
 type timeoutCtx struct {
 	context.Context
 	deadline time.Time
@@ -75,6 +78,13 @@ func (c *timeoutCtx) Deadline() (time.Time, bool) { return c.deadline, true }
 func WithTimeout(parent Context, d time.Duration) (Context, CancelFunc) {
 	if !vrt.Active() {
 		return context.WithTimeout(parent, d)
+	}
+	if d >= FailsafeHorizon {
+		// A failsafe timeout (fetch timeout, 120 s background-task timeout, ...) never fires under the
+		// scheduler: the explorer may fire any pending timer at any scheduling point, and a 5-minute
+		// timeout overtaking a runnable thread is an artefact, not a behaviour of the system. Checks that
+		// want to explore a timeout path use a duration below the horizon.
+		return WithCancel(parent)
 	}
 	inner, cancel := context.WithCancel(parent)
 	c := &timeoutCtx{Context: inner, deadline: vrt.Now().Add(d)}
